@@ -348,3 +348,47 @@ Definition ends_of (id : rid) (o : obs) : nat :=
   end.
 
 Definition count_ends (id : rid) (tr : list obs) : nat := fold_right (fun o n => (ends_of id o + n)%nat) 0%nat tr.
+
+(* ---- connect_sync (network.rs): connect(), then is_ready() every millisecond; the first answer
+   that is not Some false decides: Some true -> Ok, None -> Err(ConnectionRefused).
+   What the trace says about one connection id, as a summary of the events so far: ---- *)
+Record summ := { c_issued : bool; c_est : bool; c_failed : bool; c_disc : bool; c_removed : bool; c_acc : bool }.
+Definition summ0 : summ :=
+  {| c_issued := false; c_est := false; c_failed := false; c_disc := false; c_removed := false; c_acc := false |}.
+
+Definition summ_step (id : rid) (m : summ) (o : obs) : summ :=
+  match o with
+  | ORet _ (RConnect (Some (i, _))) =>
+      if i =? id then {| c_issued := true; c_est := c_est m; c_failed := c_failed m; c_disc := c_disc m; c_removed := c_removed m; c_acc := c_acc m |} else m
+  | ORet (URemove i) (RRemove true) =>
+      if i =? id then {| c_issued := c_issued m; c_est := c_est m; c_failed := c_failed m; c_disc := c_disc m; c_removed := true; c_acc := c_acc m |} else m
+  | OEv (Connected (i, _) ok) =>
+      if i =? id then
+        if ok then {| c_issued := c_issued m; c_est := true; c_failed := c_failed m; c_disc := c_disc m; c_removed := c_removed m; c_acc := c_acc m |}
+        else {| c_issued := c_issued m; c_est := c_est m; c_failed := true; c_disc := c_disc m; c_removed := c_removed m; c_acc := c_acc m |}
+      else m
+  | OEv (Accepted (i, _) _) =>
+      if i =? id then {| c_issued := c_issued m; c_est := c_est m; c_failed := c_failed m; c_disc := c_disc m; c_removed := c_removed m; c_acc := true |} else m
+  | OEv (Disconnected (i, _)) =>
+      if i =? id then {| c_issued := c_issued m; c_est := c_est m; c_failed := c_failed m; c_disc := true; c_removed := c_removed m; c_acc := c_acc m |} else m
+  | _ => m
+  end.
+
+Definition summ_of (id : rid) (tr : list obs) : summ := fold_left (summ_step id) tr summ0.
+
+(* the answer is_ready(id) gives in state s, i.e. what the next poll of connect_sync sees *)
+Definition is_ready_answer (s : dstate) (id : rid) : option bool := option_map r_ready (find_remote id (remotes s)).
+
+(* the property text: Ok exactly when the connection was established (and is then usable);
+   ConnectionRefused otherwise; the loop goes on only while the outcome is open *)
+Definition sync_truthful (m : summ) (r : option bool) : Prop :=
+  match r with
+  | Some true => c_est m = true /\ c_disc m = false
+  | Some false => c_est m = false /\ c_failed m = false
+  | None => c_est m = false
+  end.
+
+(* the known class K1: the connection was established AND its peer had already closed it when
+   connect_sync polled: the registry entry is gone, is_ready answers None, connect_sync reports
+   ConnectionRefused for a connection whose Connected(_, true) and Disconnected were delivered *)
+Definition K1_class (m : summ) : bool := c_est m && c_disc m.
